@@ -449,20 +449,28 @@ Proof.
         cbn [schema_component m_fields m_nested flat_map]; rewrite app_nil_r; now apply in_map.
 Qed.
 
-(* the compiler accepts what entityNode.run accepts as soon as the user's fields are fine *)
+Lemma expand_total_aux : forall e, is_panic (expand e) = false /\ expand e <> OutOfFuel.
+Proof.
+  intros e. unfold expand. destruct (default_filters e _); [|split; [reflexivity|discriminate]].
+  destruct (nodup_bytes _); split; try reflexivity; discriminate.
+Qed.
+
+(* the compiler accepts what entityNode.run accepts as soon as the user's fields are fine
+   (and the query block has no list-request settings: those panic, see [convert_panics]) *)
 Theorem compile_expand : forall e,
+  list_settings e = false ->
   (forall fl, user_refs_ok e (defined (expand_with e fl)) = true) ->
   fields_ok e = true -> query_params_ok e = true -> command_params_ok e = true -> convert e = expand e.
 Proof.
-  intros e HU Hok Hq Hc. unfold convert, expand.
+  intros e Hls HU Hok Hq Hc. unfold convert, expand. rewrite Hls.
   destruct (default_filters e _) as [fl|]; [|reflexivity].
   destruct (nodup_bytes _); [|reflexivity]. now rewrite (expand_closed e fl (HU fl)), Hok, Hq, Hc.
 Qed.
 
-(* the only convert errors the expansion itself can cause are in the user's own fields: an
+(* the only conversion errors the expansion itself can cause are in the user's own fields: an
    object reference that names nothing, an optional/required clash, a path parameter that is
    not a request field; a reference made by entity.go is never the cause *)
-Theorem compile_errors : forall e cs, expand e = Ok cs ->
+Theorem compile_errors : forall e cs, expand e = Ok cs -> list_settings e = false ->
   convert e = if user_refs_ok e (defined cs) then
                 if fields_ok e then
                   if query_params_ok e && command_params_ok e then Ok cs
@@ -470,13 +478,28 @@ Theorem compile_errors : forall e cs, expand e = Ok cs ->
                 else Err "cannot be both required and optional"
               else Err "type not found".
 Proof.
-  intros e cs H. unfold convert. rewrite H.
+  intros e cs H Hls. unfold convert. rewrite H, Hls.
   unfold expand in H. destruct (default_filters e _) as [fl|]; [|discriminate].
   destruct (nodup_bytes _); [|discriminate]. inversion H; subst.
   destruct (user_refs_ok e (defined (expand_with e fl))) eqn:EU.
   - now rewrite (expand_closed e fl EU).
   - destruct (closed (expand_with e fl)) eqn:Ec; [|reflexivity].
     rewrite (closed_user_refs e fl Ec) in EU. discriminate.
+Qed.
+
+(* Go panics are not hidden: the conversion panics exactly when the walker accepted a declaration
+   whose query block carries list-request settings *)
+Theorem convert_panics : forall e,
+  is_panic (convert e) = true <-> (exists cs, expand e = Ok cs) /\ list_settings e = true.
+Proof.
+  intros e. unfold convert. destruct (expand e) as [cs| | |] eqn:E.
+  - destruct (list_settings e); cbn.
+    + split; [intros _; split; [now exists cs|reflexivity]|reflexivity].
+    + split; [|intros [_ H]; discriminate].
+      destruct (closed cs); [destruct (fields_ok e); [destruct (query_params_ok e && command_params_ok e)|]|]; discriminate.
+  - cbn. split; [discriminate|intros [[cs H] _]; discriminate].
+  - pose proof (expand_total_aux e) as [Hp _]. rewrite E in Hp. discriminate.
+  - cbn. split; [discriminate|intros [[cs H] _]; discriminate].
 Qed.
 
 (* ---- the main file holds exactly Keys, Data, State, EventType, Event -------------- *)
@@ -1118,7 +1141,7 @@ Qed.
 Lemma compile_ok_inv : forall e cs, convert e = Ok cs -> expand e = Ok cs /\ closed cs = true.
 Proof.
   intros e cs H. unfold convert in H. destruct (expand e) as [c| | |] eqn:E; try discriminate.
-  destruct (closed c) eqn:Ec; [|discriminate]. destruct (fields_ok e); [|discriminate].
+  destruct (list_settings e); [discriminate|]. destruct (closed c) eqn:Ec; [|discriminate]. destruct (fields_ok e); [|discriminate].
   destruct (query_params_ok e && command_params_ok e); [|discriminate]. inversion H; subst. auto.
 Qed.
 
